@@ -199,3 +199,70 @@ mut("C15", "r3-check-before-dec", "modules/microtasks.go",
     "\tatomic.AddInt32(m.microTaskCnt, -1)\n\tm.checkIfStopComplete()\n", "\tm.checkIfStopComplete()\n\tatomic.AddInt32(m.microTaskCnt, -1)\n", "C15-R3|stop completion re-evaluated")
 mut("C15", "r4-min-one", "modules/microtasks.go",
     "\tif n < 2 {\n\t\tatomic.StoreInt32(microTasksThreshhold, 2)", "\tif n < 1 {\n\t\tatomic.StoreInt32(microTasksThreshhold, 1)", "C15-R4|limit table")
+
+# ---- C02 -------------------------------------------------------------------
+mut("C02", "r1-close-before-err", "database/iterator/iterator.go",
+    "\tit.errLock.Lock()\n\tit.err = err\n\tit.errLock.Unlock()\n\n\tclose(it.Next)\n\tif it.doneClosed.SetToIf(false, true) {\n\t\tclose(it.Done)\n\t}",
+    "\tclose(it.Next)\n\tif it.doneClosed.SetToIf(false, true) {\n\t\tclose(it.Done)\n\t}\n\n\tit.errLock.Lock()\n\tdefer it.errLock.Unlock()\n\tit.err = err", "C02-R1|err stored before close(it.Next)", canary=True, comment="reverts fix a503813")
+mut("C02", "r2-bbolt-finish-nil", "database/storage/bbolt/bbolt.go",
+    "\t\treturn nil\n\t})\n\tqueryIter.Finish(err)", "\t\treturn nil\n\t})\n\t_ = err\n\tqueryIter.Finish(nil)", "C02-R2|bbolt.(*BBolt).queryExecutor / Finish receives")
+mut("C02", "r2-hashmap-early-return", "database/storage/hashmap/map.go",
+    "\t\t\tcase <-time.After(1 * time.Second):\n\t\t\t\terr = errors.New(\"query timeout\")\n\t\t\t\tbreak mapLoop", "\t\t\tcase <-time.After(1 * time.Second):\n\t\t\t\terr = errors.New(\"query timeout\")\n\t\t\t\treturn", "C02-R2|hashmap.(*HashMap).queryExecutor / exit")
+mut("C02", "r3-badger-no-validity", "database/storage/badger/badger.go",
+    "\t\t\tif !r.Meta().CheckValidity() {\n\t\t\t\tcontinue\n\t\t\t}\n", "", "C02-R3|badger.(*Badger).queryExecutor$1")
+mut("C02", "r3-controller-get-no-validity", "database/controller.go",
+    "\tif !r.Meta().CheckValidity() {\n\t\treturn nil, ErrNotFound\n\t}\n\n\treturn r, nil", "\treturn r, nil", "C02-R3|database.(*Controller).Get / return record")
+mut("C02", "r3-fstree-no-prefix", "database/storage/fstree/fstree.go",
+    "\t\tif !q.MatchesKey(key) {\n\t\t\t// The walk starts at a directory, which may hold more than the\n\t\t\t// records that match the key prefix.\n\t\t\treturn nil\n\t\t}\n", "", "C02-R3|fstree.(*FSTree).queryExecutor$1", comment="reverts fix e083df2")
+mut("C02", "r3-hashmap-no-matches", "database/storage/hashmap/map.go",
+    "\t\t\t!q.MatchesRecord(record) ||\n", "", "C02-R3|hashmap.(*HashMap).queryExecutor")
+mut("C02", "r4-delete-no-evict", "database/interface.go",
+    "\t// Remove the record from the cache, it would be served from there otherwise.\n\ti.updateCache(r, false, true, 0)\n\n", "", "C02-R4|deleted record leaves the read cache", comment="reverts fix cd75049")
+mut("C02", "r4-ttl-absolute", "database/interface.go",
+    "\tttl := r.Meta().GetRelativeExpiry()\n\tr.Unlock()\n\ti.updateCache(\n\t\tr,\n\t\tfalse, // writing", "\tttl := r.Meta().GetAbsoluteExpiry()\n\tr.Unlock()\n\ti.updateCache(\n\t\tr,\n\t\tfalse, // writing", "C02-R4|getRecord / updateCache ttl")
+mut("C02", "r4-flush-inverted", "database/interface_cache.go",
+    "\tif i.options.DelayCachedWrites == \"\" {\n\t\treturn\n\t}\n\n\ti.flushWriteCache(0)", "\tif i.options.DelayCachedWrites != \"\" {\n\t\treturn\n\t}\n\n\ti.flushWriteCache(0)", "C02-R4|FlushCache", comment="reverts fix e8fac73")
+mut("C02", "r5-hashmap-geq", "database/storage/hashmap/map.go",
+    "\t\tcase meta.Deleted > 0 && (!shadowDelete || meta.Deleted < purgeThreshold):", "\t\tcase meta.Deleted >= 0 && (!shadowDelete || meta.Deleted < purgeThreshold):", "C02-R5|hashmap.(*HashMap).MaintainRecordStates")
+mut("C02", "r5-bbolt-expires-future", "database/storage/bbolt/bbolt.go",
+    "\t\t\tcase meta.Deleted == 0 && meta.Expires > 0 && meta.Expires < now:", "\t\t\tcase meta.Deleted == 0 && meta.Expires > 0 && meta.Expires > now:", "C02-R5|bbolt.(*BBolt).MaintainRecordStates$1")
+mut("C02", "r5-controller-put-always-delete", "database/controller.go",
+    "\tif !c.shadowDelete && r.Meta().IsDeleted() {", "\tif r.Meta().IsDeleted() {", "C02-R5|database.(*Controller).Put / delete-vs-put table")
+mut("C02", "r6-purge-no-deleted-check", "database/storage/bbolt/bbolt.go",
+    "\t\t\t\t// Check if record is already deleted.\n\t\t\t\tif wrapper.Meta().IsDeleted() {\n\t\t\t\t\tcontinue\n\t\t\t\t}\n", "", "C02-R6|guard !IsDeleted()")
+mut("C02", "r6-purge-batch-ends", "database/storage/bbolt/bbolt.go",
+    "\t\t\t\tif cnt%1000 == 0 {\n\t\t\t\t\treturn nil\n\t\t\t\t}", "\t\t\t\tif cnt%1000 == 0 {\n\t\t\t\t\tdone = true\n\t\t\t\t\treturn nil\n\t\t\t\t}", "C02-R6|purge loop ends")
+mut("C02", "r7-fstree-get-raw-error", "database/storage/fstree/fstree.go",
+    "\t\tif errors.Is(err, fs.ErrNotExist) {\n\t\t\treturn nil, storage.ErrNotFound\n\t\t}\n\t\treturn nil, fmt.Errorf(\"fstree: failed to read file %s: %w\", dstPath, err)", "\t\treturn nil, fmt.Errorf(\"fstree: failed to read file %s: %w\", dstPath, err)", "C02-R7|fstree.(*FSTree).Get")
+
+# ---- C14 -------------------------------------------------------------------
+mut("C14", "r1-notify-before-write", "database/controller.go",
+    "\tr, err = c.runPrePutHooks(r)\n\tif err != nil {\n\t\treturn err\n\t}\n", "\tr, err = c.runPrePutHooks(r)\n\tif err != nil {\n\t\treturn err\n\t}\n\tc.notifySubscribers(r)\n", "C14-R1|notifySubscribers", canary=True)
+mut("C14", "r1-notify-on-error", "database/controller.go",
+    "\tif err != nil {\n\t\treturn err\n\t}\n\n\tif r == nil {\n\t\treturn errors.New(\"storage returned nil record after successful put operation\")\n\t}\n\n\tc.notifySubscribers(r)",
+    "\tif r == nil {\n\t\treturn errors.New(\"storage returned nil record after successful put operation\")\n\t}\n\n\tc.notifySubscribers(r)\n\n\tif err != nil {\n\t\treturn err\n\t}", "C14-R1|guard storage write error == nil")
+mut("C14", "r1-notifications-push-on-delete", "notifications/database.go",
+    "\tn.delete(false)\n\treturn nil", "\tn.delete(true)\n\treturn nil", "C14-R1|notifications.(*StorageInterface).Delete", comment="reverts fix 5d97975")
+mut("C14", "r1-config-exported-set", "config/database.go",
+    "\t\terr := setConfigOption(r.DatabaseKey(), nil, false)\n\t\tif err != nil {\n\t\t\treturn nil, err\n\t\t}\n\t\treturn s.Get(r.DatabaseKey())", "\t\terr := SetConfigOption(r.DatabaseKey(), nil)\n\t\tif err != nil {\n\t\t\treturn nil, err\n\t\t}\n\t\treturn s.Get(r.DatabaseKey())", "C14-R1|config.(*StorageInterface).Put")
+mut("C14", "r2-cancel-rlock", "database/subscription.go",
+    "\tc.subscriptionLock.Lock()\n\tdefer c.subscriptionLock.Unlock()", "\tc.subscriptionLock.RLock()\n\tdefer c.subscriptionLock.RUnlock()", "C14-R2|under write lock")
+mut("C14", "r2-blocking-send", "database/controller.go",
+    "\t\t\tselect {\n\t\t\tcase sub.Feed <- r:\n\t\t\tdefault:\n\t\t\t}", "\t\t\tsub.Feed <- r", "C14-R2|non-blocking")
+mut("C14", "r2-snapshot-then-send", "database/controller.go",
+    "\tc.subscriptionLock.RLock()\n\tdefer c.subscriptionLock.RUnlock()\n\n\tfor _, sub := range c.subscriptions {", "\tc.subscriptionLock.RLock()\n\tsubs := make([]*Subscription, len(c.subscriptions))\n\tcopy(subs, c.subscriptions)\n\tc.subscriptionLock.RUnlock()\n\n\tfor _, sub := range subs {", "C14-R2|under subscriptionLock")
+mut("C14", "r2-close-always", "database/subscription.go",
+    "\t\t\tc.subscriptions = append(c.subscriptions[:key], c.subscriptions[key+1:]...)\n\t\t\tclose(s.Feed) // this close is guarded by the controllers subscriptionLock.\n\t\t\treturn nil\n\t\t}\n\t}\n\treturn nil", "\t\t\tc.subscriptions = append(c.subscriptions[:key], c.subscriptions[key+1:]...)\n\t\t\tbreak\n\t\t}\n\t}\n\tclose(s.Feed) // this close is guarded by the controllers subscriptionLock.\n\treturn nil", "C14-R2|close Subscription.Feed")
+mut("C14", "r3-preput-uses-postget", "database/controller.go",
+    "\t\tif !hook.h.UsesPrePut() {", "\t\tif !hook.h.UsesPostGet() {", "C14-R3|runPrePutHooks")
+mut("C14", "r3-preget-after-storage", "database/controller.go",
+    "\tif err := c.runPreGetHooks(key); err != nil {\n\t\treturn nil, err\n\t}\n\n\tr, err := c.storage.Get(key)\n\tif err != nil {\n\t\t// replace not found error\n\t\tif errors.Is(err, storage.ErrNotFound) {\n\t\t\treturn nil, ErrNotFound\n\t\t}\n\t\treturn nil, err\n\t}\n\n\tr.Lock()",
+    "\tr, err := c.storage.Get(key)\n\tif err != nil {\n\t\t// replace not found error\n\t\tif errors.Is(err, storage.ErrNotFound) {\n\t\t\treturn nil, ErrNotFound\n\t\t}\n\t\treturn nil, err\n\t}\n\n\tif err := c.runPreGetHooks(key); err != nil {\n\t\treturn nil, err\n\t}\n\n\tr.Lock()", "C14-R3|pre-get hooks before the storage read")
+mut("C14", "r3-postget-no-match", "database/controller.go",
+    "\t\tif !hook.h.UsesPostGet() {\n\t\t\tcontinue\n\t\t}\n\n\t\tif !hook.q.Matches(r) {\n\t\t\tcontinue\n\t\t}\n", "\t\tif !hook.h.UsesPostGet() {\n\t\t\tcontinue\n\t\t}\n", "C14-R3|runPostGetHooks")
+mut("C14", "r3-preput-error-ignored", "database/controller.go",
+    "\t\tr, err = hook.h.PrePut(r)\n\t\tif err != nil {\n\t\t\treturn nil, err\n\t\t}", "\t\tr, err = hook.h.PrePut(r)\n\t\tif err != nil {\n\t\t\tcontinue\n\t\t}", "C14-R3|veto propagates")
+mut("C14", "r4-sub-cancel-by-query", "database/subscription.go",
+    "\t\tif sub == s {", "\t\tif sub.q == s.q {", "C14-R4|Subscription).Cancel", comment="reverts fix 313bd77")
+mut("C14", "r4-hook-cancel-by-query", "database/hook.go",
+    "\t\tif hook == h {", "\t\tif hook.q == h.q {", "C14-R4|RegisteredHook).Cancel", comment="reverts fix 9fca7da")
